@@ -45,3 +45,64 @@ package manifest
 //@   trusted
 //@   tag ghost-pure
 //@   modifies nothing
+
+// C15 kernels (event order over ghost counters of the vfs layer).
+// logEditsLocked: the in-memory version is changed (apply) only after the edit bytes were
+// written to the manifest file and - for edits that require it, when syncWrites is on -
+// synced; a failed write changes nothing in memory.
+//@ ghost var manifestApplies Int
+//@ ghost var applySawWrites Int
+//@ ghost var applySawSyncs Int
+//@ func (*Manager).apply
+//@   trusted
+//@   ghost manifestApplies = manifestApplies + 1
+//@   ghost applySawWrites = fileWrites
+//@   ghost applySawSyncs = fileSyncs
+//@   modifies heap
+// (frame: writeEdit writes only into the buffer it is given; logEditsLocked reads that
+// buffer back through Bytes(), which is modelled as unconstrained)
+//@ func writeEdit
+//@   trusted
+//@   modifies nothing
+//@ func (*Manager).maybeRewriteLocked
+//@   trusted
+//@   modifies heap, ghost(fileWrites), ghost(fileSyncs), ghost(fileCloses), ghost(renames), ghost(renameSawSyncs), ghost(renameSawCloses), ghost(removes), ghost(removeSawRenames), ghost(openedSize), ghost(flockHeld), ghost(unlinkedWhileUnlocked), ghost(manifestFlushes), ghost(renameSawFlushes)
+//@ func (*Manager).logEditsLocked
+//@   property C15
+//@   requires m != nil && m.manifest != nil
+//@   exit [memory-after-write] manifestApplies > old(manifestApplies) ==> applySawWrites > old(fileWrites)
+//@   exit [memory-after-sync] manifestApplies > old(manifestApplies) && syncNeeded && old(m.syncWrites) ==> applySawSyncs > old(fileSyncs)
+//@   ensures [failed-write-applies-nothing] result != nil && manifestApplies > old(manifestApplies) ==> applySawWrites > old(fileWrites)
+//@   loop 1 invariant [encoding] manifestApplies == old(manifestApplies) && fileWrites == old(fileWrites) && fileSyncs == old(fileSyncs) && m != nil && m.manifest != nil && m.syncWrites == old(m.syncWrites)
+//@   loop 2 invariant [applying] fileWrites > old(fileWrites) && (syncNeeded && old(m.syncWrites) ==> fileSyncs > old(fileSyncs)) && (manifestApplies > old(manifestApplies) ==> applySawWrites > old(fileWrites) && (syncNeeded && old(m.syncWrites) ==> applySawSyncs > old(fileSyncs)))
+
+// rewriteLocked: CURRENT is switched (rename) only after the new manifest was flushed,
+// synced when syncWrites is on, and closed; on success the old manifest file is removed
+// only after the switch.
+//@ ghost var manifestFlushes Int
+//@ ghost var renameSawFlushes Int
+//@ func bufio::(*Writer).Flush
+//@   trusted
+//@   ghost manifestFlushes = (result == nil ? manifestFlushes + 1 : manifestFlushes)
+//@   modifies nothing
+//@ func (*Manager).writeSnapshot
+//@   trusted
+//@   modifies nothing
+//@ func (*Manager).nextManifestFileLocked
+//@   trusted
+//@   modifies heap
+//@ func (*Manager).writeCurrent
+//@   property C15
+//@   ghost renameSawFlushes = manifestFlushes
+//@   ensures [one-rename-on-success] result == nil ==> renames == old(renames) + 1
+//@   ensures [no-rename-on-failure] result != nil ==> renames == old(renames)
+//@   ensures [rename-sees-now] renames > old(renames) ==> renameSawSyncs == fileSyncs && renameSawCloses == fileCloses
+//@   modifies ghost(renames), ghost(renameSawSyncs), ghost(renameSawCloses)
+//@ func (*Manager).rewriteLocked
+//@   property C15
+//@   requires m != nil
+//@   ensures [switch-after-flush] renames > old(renames) ==> renameSawFlushes > old(manifestFlushes)
+//@   ensures [switch-after-sync] renames > old(renames) && old(m.syncWrites) ==> renameSawSyncs > old(fileSyncs)
+//@   ensures [switch-after-close] renames > old(renames) ==> renameSawCloses > old(fileCloses)
+//@   ensures [old-file-removed-only-after-switch] result == nil && removes > old(removes) ==> removeSawRenames > old(renames)
+//@   ensures [failure-before-switch-keeps-current] result != nil && renames == old(renames) ==> m.current == old(m.current)
